@@ -86,6 +86,12 @@ func checkLocalEdit(o *Outcome, op, desc, before, after string, hist []string, r
 		return // unreadable text is C03's business
 	}
 	bt, at := tipSet(bm), tipSet(am)
+	for _, k := range bt {
+		if k > 1 {
+			o.Probe("local-edit-oracle-skipped-duplicate-tip-names")
+			return // tip sets and distances are keyed by name: nothing can be said about a tree with two tips of the same name
+		}
+	}
 	ctx := fmt.Sprintf("%s\n  before %s\n  after  %s\nhistory:\n  %s", desc, before, after, strings.Join(hist, "\n  "))
 	var added, removed []string
 	for n := range at {
@@ -111,7 +117,7 @@ func checkLocalEdit(o *Outcome, op, desc, before, after string, hist []string, r
 		return
 	}
 	for n, k := range at {
-		if k > 1 {
+		if k > 1 && bt[n] <= 1 {
 			o.Fail("local-edit:duplicate-tip:"+op, "tip %s occurs %d times after the edit\n%s", n, k, ctx)
 			return
 		}
